@@ -122,11 +122,14 @@ Proof. rewrite <- (app_nil_r p) at 2. apply starts_with_app. Qed.
 
 (* ------------------------------------------------------------------------------------------------ *)
 (* well-formed tables *)
+(* the reloaded table: every array equal; extents as given (the knot-derived default when the table has none); auxiliary
+   entries: the same keys in the same order, each value followed by the blanks that pad its card text to 8 characters
+   (FitsWf.aux_reloaded) — for values with embedded quotes too *)
 Definition table_eq_upto_padding (t t' : table) : Prop :=
   t_order t' = t_order t /\ t_knots t' = t_knots t /\ t_naxes t' = t_naxes t /\ t_strides t' = t_strides t /\
   t_coeffs t' = t_coeffs t /\
   t_extents t' = Some (match t_extents t with Some e => e | None => default_extents (t_order t) (t_knots t) end) /\
-  t_aux t' = map (fun kv => (fst kv, fits_quote (snd kv))) (t_aux t).
+  t_aux t' = map (fun kv => (fst kv, aux_reloaded (snd kv))) (t_aux t).
 
 (* ------------------------------------------------------------------------------------------------ *)
 (* auxiliary keys *)
@@ -140,6 +143,34 @@ Proof.
   - rewrite <- E. rewrite last_last, N.eqb_refl, removelast_last. reflexivity.
 Qed.
 
+(* the un-doubling loop undoes the doubling, whatever blank padding follows: for EVERY value (no condition on v — a
+   value consisting of quotes only, or ending in one, included).
+   The same fact for C16's string model is C16_Proofs.undouble_dbl; C06_AuxTie.reader_agree shows the two models of the
+   reader are the same function on character strings. *)
+Lemma unescape_blanks j : unescape_quotes (repeat sp j) = repeat sp j.
+Proof. induction j as [|j IH]; [reflexivity|]. cbn [repeat unescape_quotes]. change (sp =? quote) with false. cbn iota. now rewrite IH. Qed.
+
+Lemma unescape_escape_pad v j : unescape_quotes (escape_quotes v ++ repeat sp j) = v ++ repeat sp j.
+Proof.
+  induction v as [|c r IH]; [apply unescape_blanks|].
+  cbn [escape_quotes]. destruct (c =? quote) eqn:E.
+  - apply N.eqb_eq in E. subst c. cbn [List.app unescape_quotes]. rewrite N.eqb_refl. now rewrite IH.
+  - cbn [List.app unescape_quotes]. rewrite E. now rewrite IH.
+Qed.
+
+Lemma escape_quotes_length v : length (escape_quotes v) = enc_len v.
+Proof.
+  unfold enc_len, count_char. induction v as [|c r IH]; [reflexivity|].
+  cbn [escape_quotes filter]. destruct (c =? quote); cbn [length]; rewrite IH; lia.
+Qed.
+
+(* reader after writer on one value: fitsio.h 262-279 applied to the raw card value 'fits_quote v' *)
+Lemma aux_value_fits_quote v : aux_value (quote :: fits_quote v ++ [quote]) = aux_reloaded v.
+Proof.
+  unfold aux_value. rewrite N.eqb_refl, strip_quotes_quoted. unfold fits_quote, pad_right, aux_reloaded.
+  rewrite unescape_escape_pad, escape_quotes_length. reflexivity.
+Qed.
+
 Lemma aux_of_head t : aux_of_cards (head_cards t) = [].
 Proof.
   unfold aux_of_cards. apply flat_map_nil. intros c I.
@@ -150,18 +181,18 @@ Proof.
 Qed.
 
 Lemma aux_of_aux_cards aux : forallb (fun kv => aux_key_ok (fst kv)) aux = true ->
-  aux_of_cards (map (fun kv => str_card (fst kv) (snd kv)) aux) = map (fun kv => (fst kv, fits_quote (snd kv))) aux.
+  aux_of_cards (map (fun kv => str_card (fst kv) (snd kv)) aux) = map (fun kv => (fst kv, aux_reloaded (snd kv))) aux.
 Proof.
   induction aux as [|[k v] aux IH]; intros W; [reflexivity|].
   cbn [forallb fst snd] in W. apply andb_true_iff in W as [W1 W2].
   unfold aux_key_ok in W1. repeat (apply andb_true_iff in W1; destruct W1 as [W1 ?]).
   cbn [map fst snd]. unfold aux_of_cards in *. cbn [flat_map]. rewrite IH by auto.
   cbn [str_card card_key raw_value]. rewrite W1. match goal with H : negb (reserved k) = true |- _ => rewrite H end.
-  cbn [andb List.app]. rewrite strip_quotes_quoted. reflexivity.
+  cbn [andb List.app]. rewrite aux_value_fits_quote. reflexivity.
 Qed.
 
 Lemma aux_of_primary t : forallb (fun kv => aux_key_ok (fst kv)) (t_aux t) = true ->
-  aux_of_cards (primary_cards t) = map (fun kv => (fst kv, fits_quote (snd kv))) (t_aux t).
+  aux_of_cards (primary_cards t) = map (fun kv => (fst kv, aux_reloaded (snd kv))) (t_aux t).
 Proof.
   intros W. rewrite primary_cards_split. unfold aux_of_cards. rewrite flat_map_app.
   fold (aux_of_cards (head_cards t)). rewrite aux_of_head. cbn [List.app]. apply aux_of_aux_cards; auto.
